@@ -8,7 +8,7 @@
     there: both results optimal, equal difference and bin count (PARTIAL; equal sums tested).  wf_*: every reported sum is the total
     value of the items reported in that bin (from is_partition / is_packing / is_cover of C01/C03/C05).
     Statements only; proofs in Proofs/EraseProofs.v and the per-algorithm files. *)
-From Prtpy Require Import Base.Prelude Model.Binner Model.Objectives Model.Greedy Model.Packing Model.Covering Model.KK Model.CG Model.DP Model.SNP Model.CBLDM Model.BinCompletion Model.Multifit Model.Output Spec.Partition Proofs.EraseProofs Proofs.MultifitProofs Proofs.CKKOptimal.
+From Prtpy Require Import Base.Prelude Model.Binner Model.Objectives Model.Greedy Model.Packing Model.Covering Model.KK Model.CG Model.DP Model.SNP Model.CBLDM Model.BinCompletion Model.Multifit Model.Output Spec.Partition Proofs.EraseProofs Proofs.MultifitProofs Proofs.CKKOptimal Model.Balanced Proofs.BalancedProofs.
 
 (** if the sums-only run is the erasure of the full run, every cheap output is the documented function of the full run's sums *)
 Theorem C06_schema :
@@ -67,6 +67,14 @@ Theorem C06_roundrobin :
   derive o (sums (roundrobin valueof true k items)).
 Proof. exact @C06_roundrobin. Qed.
 Print Assumptions C06_roundrobin.
+
+Theorem C06_bidirectional_balanced :
+  forall (A : Type) (valueof : A -> Z) (o : outtype) (k : nat) (items : list A),
+  keeps o = false ->
+  run_partition o bidirectional_balanced valueof k items =
+  derive o (sums (bidirectional_balanced valueof true k items)).
+Proof. exact @C06_bidirectional_balanced. Qed.
+Print Assumptions C06_bidirectional_balanced.
 
 Theorem C06_multifit_erase :
   forall (A : Type) (valueof : A -> Z) (it k : nat) (items : list A),
